@@ -125,7 +125,7 @@ CHECKS = {
     "C02": dict(
         technique="Lean 4 proof (window/reversal/chain-order theorems over the Roland model) + whole-image correspondence: independent Roland S-7xx writer -> real export/ls vs Lean parser model vs logical oracle",
         text=(
-            "Machine-checked: C02_window (a window inside the written words is exported as exactly those words, whatever follows them; reversed word-wise for the reverse modes), C02_mode_window (modes 1,3 end at the release end, the others at the sustain end, exactly 5,6 reversed), C02_chain_content / C02_cluster_read (content = clusters in chain order, each read whole), C02_sample (composition on the model), C02_file_clusters with C07_getPath_sound (the chain is the FAT's), reverseWords_enc / involutive. From the raw image: C02_clusters_from_image — if the FAT area parses and the RAW FAT holds a chain c whose head is an allocatable cluster (other words may point at it or into the chain), the file starting there with leading-cluster offset top is exactly c minus its first top clusters, in chain order (parseFat_links + C07_roland_complete). The writer's side: C02_sample_record_roundtrip — a sample written as a 32-byte directory record and a 48-byte parameter record (names, FAT entry, five 32-bit loop points, loop mode, tuning bytes, leading-cluster offset, option byte, key; every other byte arbitrary) at the slots of sample i parses to exactly those values; C02_written_sample composes it with the raw FAT chain and C02_sample: the node the parser builds is (written record, clusters of the chain after the offset), and it exports exactly the window the loop mode addresses, reversed for the reverse modes, for every cluster order. The tool's side, on the tree (Props/C02E): C02_export_perf — a performance whose patches and referenced samples carry clean, pairwise distinct names (the samples' names no pair halves) is exported as exactly one file per referenced sample, patch by patch in slot order, at <dir>/<stored name>.wav; exportOne_mono — each such file is the RIFF header buildWav computes followed by exactly the whole 16-bit frames of the window sampleData addresses (C12_single, 4096-byte blocks); C02_export_tree — for volumes and performances with clean, pairwise distinct names and plain performances, export writes volume by volume, performance by performance exactly those WAVs at <volume>/<performance>/<name>.wav and nothing else. "
+            "Machine-checked: C02_orphan_scan_aligned / C02_orphans_position_based (the orphan search - a sequential parse of the performance directory that loses its alignment at a name that does not decode - is the position-based scan whenever all names decode), C02_window (a window inside the written words is exported as exactly those words, whatever follows them; reversed word-wise for the reverse modes), C02_mode_window (modes 1,3 end at the release end, the others at the sustain end, exactly 5,6 reversed), C02_chain_content / C02_cluster_read (content = clusters in chain order, each read whole), C02_sample (composition on the model), C02_file_clusters with C07_getPath_sound (the chain is the FAT's), reverseWords_enc / involutive. From the raw image: C02_clusters_from_image — if the FAT area parses and the RAW FAT holds a chain c whose head is an allocatable cluster (other words may point at it or into the chain), the file starting there with leading-cluster offset top is exactly c minus its first top clusters, in chain order (parseFat_links + C07_roland_complete). The writer's side: C02_sample_record_roundtrip — a sample written as a 32-byte directory record and a 48-byte parameter record (names, FAT entry, five 32-bit loop points, loop mode, tuning bytes, leading-cluster offset, option byte, key; every other byte arbitrary) at the slots of sample i parses to exactly those values; C02_written_sample composes it with the raw FAT chain and C02_sample: the node the parser builds is (written record, clusters of the chain after the offset), and it exports exactly the window the loop mode addresses, reversed for the reverse modes, for every cluster order. The tool's side, on the tree (Props/C02E): C02_export_perf — a performance whose patches and referenced samples carry clean, pairwise distinct names (the samples' names no pair halves) is exported as exactly one file per referenced sample, patch by patch in slot order, at <dir>/<stored name>.wav; exportOne_mono — each such file is the RIFF header buildWav computes followed by exactly the whole 16-bit frames of the window sampleData addresses (C12_single, 4096-byte blocks); C02_export_tree — for volumes and performances with clean, pairwise distinct names and plain performances, export writes volume by volume, performance by performance exactly those WAVs at <volume>/<performance>/<name>.wav and nothing else. "
             "Tie: gen_roland writes images from logical discs (7 loop modes, 6 rates, FAT version flag 1/2, contiguous/reversed/random/head-not-lowest chains, cluster_top 0-2, windows ending on k*9216, shared and orphan performances); the real tool's export and ls at every node are compared with the Lean model of the whole parser (ID area, FAT decode, directories, pointer lists, naming, WAV) and with PCM/rate computed from the logical disc. "
             "Modelled, not verified: construct's struct parsing is represented by explicit offsets (checked by the correspondence), numpy unique/reshape by sort+dedupe / word reversal."
         ),
